@@ -68,8 +68,29 @@ def mir_release_on_rejected(which, upd):
     return f
 
 
+def mir_inflight_owned(cfg):
+    """fetch_headers_txs: a hash is marked in flight (fetching_idle_*: first_sent set, timeout cleared - no longer listed by get_*_to_fetch) only in a
+    loop iteration that has recorded it in a peer's proof request (update_*_proof_request): a timeout, disconnect or reply of THAT peer is the only
+    thing that ever releases it.  Checked per iteration: every simple path from the iteration's peer selection (Iterator::find) to the mark passes
+    the request installation."""
+    import mirpaths
+    q = mirpaths.Query(cfg)
+    finds = cfg.find_calls(r'as Iterator>::find::<')
+    for which, upd in [('headers', 'blocks'), ('txs', 'txs')]:
+        marks = cfg.find_calls(r'Peers::fetching_idle_%s$' % which)
+        q.witness(marks, 'fetching_idle_%s reachable' % which)
+        upds = cfg.find_calls(r'Peers::update_%s_proof_request$' % upd, required=False)
+        edges = [(c.block, c.ret) for c in upds]
+        for f in finds:
+            q.must_pass(marks, edges, 'fetch_headers_txs marks %s as in flight in an iteration that has not recorded them in any peer\'s proof request (when every peer is busy '
+                        'they are marked and never released: the fetch is lost)' % which, src=f.block)
+    return q
+
+
 def obligations():
     obs = [
+        MirOb('O16.5-inflight-owned', 'LightClientProtocol::fetch_headers_txs: hashes are marked in flight only after the request that carries them was recorded for a peer',
+              r'mod\.rs:\d+:\d+: \d+:\d+>::fetch_headers_txs\(', mir_inflight_owned, src_rel=LCMOD),
         MirOb('O16.4-release-rejected-headers', 'SendBlocksProofProcess::execute: a rejected response releases the in-flight header fetches before the request is dropped',
               r'send_blocks_proof\.rs:\d+:\d+: \d+:\d+>::execute\(', mir_release_on_rejected('headers', 'blocks'), src_rel=SBP),
         MirOb('O16.4-release-rejected-txs', 'SendTransactionsProofProcess::execute: a rejected response releases the in-flight transaction fetches before the request is dropped',
